@@ -12,6 +12,7 @@ PROPS = {
     'C02': ('theories/Properties/C02.v', [], 'c02'),
     'C05': ('theories/Properties/C05.v', [], 'c05'),
     'C04': ('theories/Properties/C04.v', [], 'c04'),
+    'C07': ('theories/Properties/C07.v', [], 'c07'),
     'C08': ('theories/Properties/C08.v', [], 'c08'),
     'C10': ('theories/Properties/C10.v', [], 'c10'),
     'C15': ('theories/Properties/C15.v', [], 'c15'),
